@@ -135,6 +135,19 @@ def run_case(case, ob, tier):
     if case.get('k') == 'chelper':
         from . import c08
         return c08.run_chelper(case, ob, 'C02:compiled:hash-map-helper')
+    # every enabled write port doubles the explored paths per cycle: when the budget is exceeded the same design is decided for
+    # fewer cycles (noted in the evidence) instead of not at all
+    for K in [case['K']] + [k_ for k_ in (3, 2) if k_ < case['K']]:
+        try:
+            return _run_case(dict(case, K=K), ob, tier)
+        except sym.HarnessError as e:
+            if 'path budget' not in str(e) or K == 2:
+                raise
+            ob.notes.append('path budget exceeded at K=%d: decided for fewer cycles' % K)
+            ob.n, ob.unsat, ob.sat, ob.unknown = 0, 0, [], []
+
+
+def _run_case(case, ob, tier):
     site = site_of(case)
     block = prep(case)
     K = case['K']
